@@ -34,12 +34,12 @@ pub fn check_rule_with_hint<'r, L: Language>(
       check_vars(rule, utils, constraints, transform, fixer)?;
     }
     CheckHint::Normal => {
-      check_utils_defined(rule, constraints)?;
+      check_utils_defined(rule, utils, constraints)?;
       check_vars(rule, utils, constraints, transform, fixer)?;
     }
     // upper_vars is needed to check metavar defined in containing vars
     CheckHint::Rewriter(upper_vars) => {
-      check_utils_defined(rule, constraints)?;
+      check_utils_defined(rule, utils, constraints)?;
       check_vars_in_rewriter(rule, utils, constraints, transform, fixer, upper_vars)?;
     }
   }
@@ -66,9 +66,12 @@ fn check_vars_in_rewriter<'r, L: Language>(
 
 fn check_utils_defined<L: Language>(
   rule: &Rule<L>,
+  utils: &RuleRegistration<L>,
   constraints: &HashMap<String, Rule<L>>,
 ) -> RResult<()> {
   rule.verify_util()?;
+  // references made inside the local utilities must resolve too
+  utils.verify_local_utils()?;
   for constraint in constraints.values() {
     constraint.verify_util()?;
   }
